@@ -5,7 +5,7 @@ from vlib import tlc
 THREADS = ["ldl_recv", "ldl_poll", "dlc_client", "dlc_client_name", "dlc_server", "resolve", "poll_send",
            "late_connect", "late_resolve", "late_accept", "late_recvfrom", "late_bound_recvfrom",
            "late_sendto", "early_then_late", "dlc_poll_recv", "dlc_poll_acks", "dlc_poll_send",
-           "dlc_frmr_peer", "dlc_frmr_local", "dlc_frmr_ui", "dlc_server2", "wks_clash"]
+           "dlc_frmr_peer", "dlc_frmr_local", "dlc_frmr_ui", "dlc_server2", "wks_clash", "resolve_a", "resolve_b", "resolve_c"]
 SOCKS = ["ldl1", "ldl2", "ldl3", "ldl4", "dlc1", "dlc2", "dlc2c", "dlc2cc", "dlc3", "dlc4", "dlc5", "dlc6", "dlc7", "dlc8", "dlc9", "sd", "fresh", "raw4", "wks"]
 
 
